@@ -5,3 +5,4 @@ CONSTANT NTasks <- NT
 CONSTANT UNIQUE_BUSY = FALSE
 INVARIANT NoLostTask
 CHECK_DEADLOCK FALSE
+CONSTANT PUBLISH_GUARDED = FALSE
